@@ -155,6 +155,20 @@ def mutations(rng, tok, key, alg, pool, dense):
     yield ("sig array vs single key", tok, [tok], key, False, False)
     yield ("sig array vs key array", tok, [tok], [key], False, True)
     yield ("sig array size mismatch", tok, [tok, tok], [key], False, False)
+    # the i-th signature object goes with the i-th key: a valid object paired with a foreign key, an empty one with the right key
+    hollow = {k: v for k, v in tok.items() if k not in ("payload", "signature")}
+    yield ("sig array [tok, hollow] vs [foreign, key]", tok, [tok, dict(hollow, signature="")], [bad, key], False, False)
+    yield ("sig array [hollow, tok] vs [key, foreign]", tok, [dict(hollow, signature=""), tok], [key, bad], False, False)
+    yield ("sig array [hollow, tok] vs [foreign, key]", tok, [dict(hollow, signature=""), tok], [bad, key], False, True)
+    yield ("sig array [tok, tok] vs [key, foreign] all", tok, [tok, tok], [key, other], True, False)
+    yield ("sig junk vs key array", tok, 5, [key], False, None)
+    # the unprotected header relabels the algorithm (the signing input does not change): another name of the same family
+    if isinstance(tok.get("header"), dict) and "alg" in tok["header"] and "alg" not in (G.merged_header({k: v for k, v in tok.items() if k != "header"}) or {}):
+        for other_alg in ("ES256K" if alg == "ES256" else "ES256" if alg == "ES256K" else "HS384" if alg == "HS256" else "HS256" if alg.startswith("HS") else
+                          "PS256" if alg == "RS256" else "RS256" if alg == "PS256" else "RS256" if alg.startswith(("RS", "PS")) else "ES256",):
+            if other_alg != alg:
+                yield ("unprotected alg relabelled to " + other_alg, dict(tok, header=dict(tok["header"], alg=other_alg)), None, key, False, False)
+                yield ("unprotected alg relabelled to %s, key declares it" % other_alg, dict(tok, header=dict(tok["header"], alg=other_alg)), None, dict(key, alg=other_alg), False, False)
     # 7. general-form containers
     yield ("signatures [tok]", {"payload": tok["payload"], "signatures": [{k: v for k, v in tok.items() if k != "payload"}]}, None, key, False, True)
     yield ("signatures []", {"payload": tok["payload"], "signatures": []}, None, key, False, False)
@@ -225,6 +239,20 @@ def run(ctx):
             ops.append(("jws.ver_io", {"jws": det, "jwk": key, "feeds": parts, "_expect": True, "_why": "streamed " + alg}))
             ops.append(("jws.ver_io", {"jws": det, "jwk": key, "feeds": parts[:-1] + [(bytes.fromhex(parts[-1])[:-1] + b"A").hex()] if parts and parts[-1] else parts + ["41"],
                                        "_expect": None, "_why": "streamed, last byte changed " + alg}))
+        # vacuous and key-set cases streamed (the verdict is the final `done`), with and without feeds
+        other_ = pool["oct-64"] if key.get("kty") != "oct" else pool["EC-P256-b"]
+        for feeds in ([p.hex()], []):
+            for all_ in (False, True):
+                whole = feeds == [p.hex()]
+                ops.append(("jws.ver_io", {"jws": det, "jwk": [], "all": all_, "feeds": feeds, "_expect": False, "_why": "streamed, empty key array"}))
+                ops.append(("jws.ver_io", {"jws": det, "jwk": {"keys": []}, "all": all_, "feeds": feeds, "_expect": False, "_why": "streamed, empty key set"}))
+                ops.append(("jws.ver_io", {"jws": {"signatures": []}, "jwk": key, "all": all_, "feeds": feeds, "_expect": False, "_why": "streamed, empty signature list"}))
+                ops.append(("jws.ver_io", {"jws": det, "jwk": [key, other_], "all": all_, "feeds": feeds, "_expect": (whole and not all_) if tok["payload"] else None,
+                                           "_why": "streamed, [key, other] all=%s" % all_}))
+                ops.append(("jws.ver_io", {"jws": det, "jwk": [other_, key], "all": all_, "feeds": feeds, "_expect": (whole and not all_) if tok["payload"] else None,
+                                           "_why": "streamed, [other, key] all=%s" % all_}))
+                ops.append(("jws.ver_io", {"jws": det, "jwk": [[key], {"keys": [other_]}], "all": all_, "feeds": feeds, "_expect": (whole and not all_) if tok["payload"] else None,
+                                           "_why": "streamed, nested key lists all=%s" % all_}))
     accepted = []
 
     def p_ver(op, args, real):
